@@ -74,3 +74,67 @@ contract(F, "Bijection._populate_json_map", props=["C18"], aliases={"Any": AnyV,
              modifies=["*json_map", "all:Dict(Str, Any)"])},
          modifies=["*json_map", "all:Dict(Str, Any)"],
          notes="needs distinct identifiers for distinct classes (established by _classes_to_array)")
+
+# ------------------------------------------------------------------ C12: atoms are matched only with atoms of the same size
+from .common import CombObj as _CO
+opaque_method("CombClass", "objects_of_size", Seq(_CO), args=[Int])
+opaque_method("CombObj", "size", Int)
+klass(F, "Isomorphism", fields={}) if "Isomorphism" not in REG.classes else None
+_ASZ = "{a}.objects_of_size({a}.minimum_size_of_object())[0].size()"
+contract(F, "Isomorphism._atom_match", props=["C12"], lenient=True, aliases={"CombClass": _CC},
+         params={"self": Obj("Isomorphism"), "atom1": _CC, "atom2": _CC, "rule1": Obj("Rule"), "rule2": Obj("Rule")},
+         returns=Bool, pure_calls=["get_terms"], may_raise=["StopIteration"],
+         # a leaf of one specification is matched with a leaf of the other only if their single objects have the same size
+         ensures=["implies(result, " + _ASZ.format(a="atom1") + " == " + _ASZ.format(a="atom2") + ")"],
+         modifies=["all:Obj('AbstractRule')", "all:List(Opaque('Terms'))"],
+         notes="necessary condition for a size-preserving bijection; equality of the terms is not tracked (lenient)")
+
+# ------------------------------------------------------------------ C12: Bijection.__init__ / map / inverse_map
+# the inverse direction uses, for every matched pair (c1, c2), the INVERSE child permutation under the swapped key, and the
+# two public maps hand the matching tables to ParseTreeMap.map in the right orientation
+OrderMap = Dict(Tup(_CC, _CC), List(Int))
+DataMap = Dict(Tup(_CC, _CC), AnyV)
+SpecT = Opaque("Spec")
+klass(F, "Bijection", fields={"_index_data": DataMap, "_inv_index_data": DataMap, "_spec": SpecT, "_other": SpecT,
+                              "_get_order": OrderMap, "_get_inverse_order": OrderMap})
+_BAL = {"Any": AnyV, "CombClass": _CC, "PairK": PairK, "Spec": SpecT}
+_PERM = ("forall(lambda k=PairK: implies(k in get_order, "
+         "forall(lambda i: implies(0 <= i and i < len(get_order[k]), 0 <= get_order[k][i] and get_order[k][i] < len(get_order[k]))) and "
+         "forall(lambda i, j: implies(0 <= i and i < j and j < len(get_order[k]), get_order[k][i] != get_order[k][j]))))")
+contract(F, "Bijection.__init__", props=["C12", "C18"], aliases=_BAL,
+         params={"self": Obj("Bijection"), "spec": SpecT, "other": SpecT, "get_order": OrderMap, "index_data": Opt(DataMap)},
+         requires=[_PERM],      # every stored child order is a permutation of range(n) (what Isomorphism builds)
+         ensures=["self._spec == spec", "self._other == other", "same(self._get_order, get_order)",
+                  "implies(not is_none(index_data), same(self._index_data, val(index_data)))",
+                  # inverse orders: swapped key, inverse permutation
+                  "forall(lambda a=CombClass, b=CombClass: ((b, a) in self._get_inverse_order) == ((a, b) in get_order))",
+                  "forall(lambda a=CombClass, b=CombClass: implies((a, b) in get_order, "
+                  "len(self._get_inverse_order[(b, a)]) == len(get_order[(a, b)]) and "
+                  "forall(lambda i: implies(0 <= i and i < len(get_order[(a, b)]), "
+                  "self._get_inverse_order[(b, a)][get_order[(a, b)][i]] == i))))",
+                  # inverse index data: swapped key, same datum
+                  "forall(lambda a=CombClass, b=CombClass: ((b, a) in self._inv_index_data) == ((a, b) in self._index_data))",
+                  "forall(lambda a=CombClass, b=CombClass: implies((a, b) in self._index_data, "
+                  "self._inv_index_data[(b, a)] == self._index_data[(a, b)]))"],
+         modifies=["*self", "all:Dict(Tup(CombClass, CombClass), Any)", "all:Dict(Tup(CombClass, CombClass), List(Int))",
+                   "all:List(Int)"], self_invariant=False,
+         notes="construction of the inverse tables")
+ObjT = Opaque("CombObj")
+contract(F, "ParseTreeMap.map", props=["C12"], verify=False, aliases=_BAL,
+         trusted_reason="recursive transport of a parse tree along the matching (bounded stand-in c12: bijectivity on objects)",
+         params={"domain": SpecT, "codomain": SpecT, "get_order": OrderMap, "index_data": DataMap, "obj": ObjT},
+         returns=ObjT, may_raise=["AssertionError", "StrategyDoesNotApply", "KeyError"], modifies=[])
+contract(F, "Bijection.map", props=["C12"], aliases=_BAL,
+         params={"self": Obj("Bijection"), "obj": ObjT}, returns=ObjT,
+         may_raise=["AssertionError", "StrategyDoesNotApply", "KeyError"],
+         call_requires={"ParseTreeMap.map": ["domain == self._spec", "codomain == self._other",
+                                             "same(get_order, self._get_order)",
+                                             "same(index_data, self._index_data)", "obj == caller_obj"]},
+         modifies=[], notes="forward direction: first specification to second, forward tables")
+contract(F, "Bijection.inverse_map", props=["C12"], aliases=_BAL,
+         params={"self": Obj("Bijection"), "obj": ObjT}, returns=ObjT,
+         may_raise=["AssertionError", "StrategyDoesNotApply", "KeyError"],
+         call_requires={"ParseTreeMap.map": ["domain == self._other", "codomain == self._spec",
+                                             "same(get_order, self._get_inverse_order)",
+                                             "same(index_data, self._inv_index_data)", "obj == caller_obj"]},
+         modifies=[], notes="backward direction: specifications swapped, inverse tables")
